@@ -8,7 +8,15 @@ use serde_json::json;
 fn oracle(ctx: &Ctx<'_>, _stats: &mut ShardStats) -> Vec<(String, String)> {
     match ctx.result {
         Compiled::Panic(m) => {
-            let sig: String = m.chars().filter(|c| !c.is_ascii_digit()).take(80).collect();
+            let mut sig: String = m.chars().filter(|c| !c.is_ascii_digit()).take(80).collect();
+            // narrow signature of a recorded finding: a recursive input object type used as a variable type is
+            // expanded inline without end by the parameter type printer (indentation counter overflows)
+            if sig == "attempt to add with overflow"
+                && let Some(crate::progx::Decl::SchemaVariant { code }) = ctx.program.decls.first()
+                && crate::schemagen::decode(*code)[6] == 1
+            {
+                sig = "recursive-input-object-type-as-variable-type".to_string();
+            }
             vec![(format!("panic:{sig}"), format!("compile panicked: {m} :: {}", ctx.program.literals().iter().map(|l| l.1.replace('\n', " ")).collect::<Vec<_>>().join(" || ")))]
         }
         Compiled::Diagnostics(d) if d.is_empty() => vec![("no-diagnostic".into(), "compile failed without any diagnostic".into())],
@@ -24,6 +32,7 @@ pub fn families(tier: Tier) -> Vec<Family> {
         Family { menu: Menu::Cycles, k: tier.pick(2, 3) },
         Family { menu: Menu::ClientArgs, k: tier.pick(3, 4) },
         Family { menu: Menu::Decls, k: 1 },
+        Family { menu: Menu::Schemas, k: 1 },
         Family { menu: Menu::DemoMutations, k: tier.pick(1, 3) },
         Family { menu: Menu::Pointers, k: tier.pick(3, 4) },
         Family { menu: Menu::Overlap, k: tier.pick(2, 3) },
